@@ -103,6 +103,10 @@ func handleLRange(params internal.HandlerFuncParams) ([]byte, error) {
 	if start < 0 {
 		start = len(list) + start
 	}
+	// A start index that is still before the head of the list refers to the first element.
+	if start < 0 {
+		start = 0
+	}
 
 	end, err := strconv.Atoi(params.Command[3])
 	if err != nil {
@@ -112,12 +116,12 @@ func handleLRange(params internal.HandlerFuncParams) ([]byte, error) {
 	if end < 0 {
 		end = len(list) - end
 	}
-	// If end is greater than list length, set it to the last element of the list
-	if end > len(list) {
+	// If end is past the last element of the list, set it to the last element of the list
+	if end >= len(list) {
 		end = len(list) - 1
 	}
 
-	if start > end || start > len(list) {
+	if start > end || start >= len(list) {
 		return []byte("*0\r\n"), nil
 	}
 
